@@ -827,7 +827,10 @@ def run_echo(case: dict, tmp: str) -> dict:
             fds += [r, w]
             stdin = os.fdopen(os.dup(r), "rb", buffering=0)
         else:
-            m, s = os.openpty()
+            try:
+                m, s = os.openpty()
+            except OSError:          # no pseudo terminals in this sandbox: nothing recorded, nothing judged
+                return {"op": "echo", "kind": "unavailable", "before": -1, "after": -1, "same": -1, "exc": ""}
             fds += [m, s]
             attrs = termios.tcgetattr(s)
             if kind == "echo_off":
